@@ -43,7 +43,7 @@ def boundary_values(g, name, n):
 # Non-integer fixed-length dtypes: (allowed lengths in bits [None = the length may be omitted], value pool) - clause 2 sends these
 # through every write route with legal and illegal lengths (float not 16/32/64, bool not 1, a length for a variable-length code ...).
 _F = [0.0, 1.0, -0.5, 2.0, 1e10, -1e39, 0.1, 3.5, float('inf')]
-_SMALLF = [0.0, 1.0, -0.5, 2.0, 0.25, 1.5, -1.0, 4.0]
+_SMALLF = [0.0, 1.0, -0.5, 2.0, 0.25, 1.5, -1.0, 4.0, float('nan'), 1e9, -1e9, 0.3]
 TYPED = {
     'float': ((16, 32, 64), _F), 'floatbe': ((16, 32, 64), _F), 'floatle': ((16, 32, 64), _F), 'floatne': ((16, 32, 64), _F),
     'bfloat': ((16, None), _F), 'bfloatbe': ((16, None), _F), 'bfloatle': ((16, None), _F), 'bfloatne': ((16, None), _F),
@@ -52,7 +52,7 @@ TYPED = {
     'se': ((None,), [0, 1, -5, 100, -1]), 'sie': ((None,), [0, 1, -5, 100, -1]),
     'p3binary': ((8, None), _SMALLF), 'p4binary': ((8, None), _SMALLF), 'e4m3mxfp': ((8, None), _SMALLF), 'e5m2mxfp': ((8, None), _SMALLF),
     'e3m2mxfp': ((6, None), _SMALLF), 'e2m3mxfp': ((6, None), _SMALLF), 'e2m1mxfp': ((4, None), _SMALLF),
-    'e8m0mxfp': ((8, None), [1.0, 2.0, 0.5, 4.0, 3.0, 0.3, 0.0, -1.0]), 'mxint': ((8, None), _SMALLF),
+    'e8m0mxfp': ((8, None), [1.0, 2.0, 0.5, 4.0, 3.0, 0.3, 0.0, -1.0, float('nan')]), 'mxint': ((8, None), _SMALLF),
 }
 TYPED_LENGTHS = [None, 0, 1, 2, 4, 6, 7, 8, 12, 16, 24, 32, 48, 64, 65, 128, -1, -16]
 TYPED_ROUTES = ('ctor_kw', 'ctor_named', 'token', 'append', 'prepend', 'pack', 'pack_kw', 'build', 'prop_named', 'array_new', 'insert', 'iadd')
@@ -65,7 +65,9 @@ def typed_value_ok(name, v):
         return v >= 0
     if name == 'e8m0mxfp':
         import math
-        return v > 0 and math.frexp(v)[0] == 0.5
+        return v != v or (v > 0 and math.frexp(v)[0] == 0.5)
+    if v != v:
+        return name not in ('e3m2mxfp', 'e2m3mxfp', 'e2m1mxfp', 'mxint')       # formats without a NaN code refuse NaN
     return True
 
 
@@ -118,7 +120,7 @@ class EReject(Engine):
                     'data': bytes(g.int(0, 255) for _ in range(min(desc['size'], 8))).hex()}
         return {'mode': 'write', 'avoid': bool(desc.get('avoid')),
                 'ba': g.bits(g.pick([8, 12, 16, 24, 5, 32, 64, 70])), 'bs': g.bits(g.pick([8, 16, 24, 40, 13])), 'bspos': g.int(0, 8),
-                'adtype': g.pick(['uint', 'int']) + str(g.pick([1, 3, 8, 12, 16, 33, 64, 70])), 'aitems': g.int(0, 4), 'bystander': g.bits(g.int(1, 16))}
+                'adtype': g.pick(['uint', 'int']) + str(g.pick([1, 3, 8, 12, 16, 33, 64, 70])), 'aitems': g.int(0, 4), 'bystander': g.bits(g.int(1, 16)), 'mxfp_overflow': g.pick(['saturate', 'saturate', 'overflow'])}
 
     # -------------------------------------------------------------------------------------------------
     def start(self, cfg):
@@ -155,6 +157,8 @@ class EReject(Engine):
             st, a = call(B.Array, str(cfg.get('adtype', 'uint8')), [0] * int(cfg.get('aitems', 0)))
             self.arr = a if st == 'ok' else B.Array('uint8')
             self.by = B.Bits(bin=cfg.get('bystander', '1'))
+            if cfg.get('mxfp_overflow') == 'overflow':
+                B.options.mxfp_overflow = 'overflow'
             self.accepted = self.rejected = 0
         return {'mode': cfg.get('mode')}
 
